@@ -305,7 +305,7 @@ def check_crystal(mon, crystal, crys, rng, desc, sigkey):
         if len(ref) < len(refG): mon.count('wyckoffpos_special')
         else: mon.count('wyckoffpos_general')
         # addbasis: only for decorations that stay clear of the existing atoms and of each other
-        if label == 'site' or added >= 2 or crys.N + len(ref) > 14: continue
+        if label == 'site' or added >= 1 or crys.N + len(ref) > 14: continue
         allpos = [w for lst in crys.basis for w in lst]
         if gen.mindist(L, allpos + ref) < 0.08: continue
         new = None
